@@ -446,7 +446,7 @@ fn gen_op(r: &mut Rng, likely: bool) -> Value {
 }
 
 /// long inputs: hundreds of subtags of one kind (counters, capacities, quadratic loops, recursion depth)
-fn gen_long(r: &mut Rng) -> Vec<u8> {
+fn gen_long(r: &mut Rng, kind: usize) -> Vec<u8> {
     let n = 200 + r.below(140);
     let uniq = |r: &mut Rng, i: usize, digit_first: bool| -> Vec<u8> {
         // distinct 5..8-character subtags; a few repeats on purpose
@@ -456,10 +456,9 @@ fn gen_long(r: &mut Rng) -> Vec<u8> {
         v
     };
     let mut toks: Vec<Vec<u8>> = vec![b"en".to_vec()];
-    let kind = r.below(9);
     if kind == 6 {
-        // thousands of consecutive separators (recursion per empty subtag, quadratic rescans)
-        let run = *r.pick(&[3_000usize, 20_000, 120_000]);
+        // many thousands of consecutive separators (recursion per empty subtag, quadratic rescans)
+        let run = *r.pick(&[60_000usize, 120_000, 250_000]);
         let mut v = b"en".to_vec();
         if r.chance(1, 2) { v.extend_from_slice(b"-u-foo"); }
         v.extend(std::iter::repeat(if r.chance(1, 2) { b'-' } else { b'_' }).take(run));
@@ -495,8 +494,9 @@ fn gen_long(r: &mut Rng) -> Vec<u8> {
 
 fn drive_parse(r: &mut Rng, n: usize, log: &mut Log) {
     // a handful of long inputs per run (each is one event; validation cost grows with length)
-    for _ in 0..6.min(n / 200) {
-        let input = gen_long(r);
+    // every kind of long input, once per run (9 kinds)
+    for kind in 0..9usize.min(n / 100) {
+        let input = gen_long(r, kind);
         ev_li_parse(log, &input);
         ev_loc_parse(log, &input);
     }
@@ -693,6 +693,37 @@ fn drive_meta(r: &mut Rng, n: usize, log: &mut Log) {
             // make it ill-formed first: the transformed version must fail the same way
             let k = r.below(a_toks.len());
             a_toks[k] = mutate(r, a_toks[k].clone()).into_iter().filter(|c| *c != b'-' && *c != b'_').collect();
+        }
+        // every tenth pair: one unordered part with 9..14 (now and then 17 or 33) members; the second text repeats
+        // members anywhere behind the original and/or lists them in another order
+        if it % 10 == 5 {
+            let k = if r.chance(1, 5) { *r.pick(&[17usize, 33]) } else { 9 + r.below(6) };
+            let mut head: Vec<Vec<u8>> = vec![gen_lang(r)];
+            let kind = r.below(2);
+            let mut members: Vec<Vec<u8>> = Vec::new();
+            while members.len() < k {
+                let m = if kind == 0 { gen_variant(r) } else { word(r, ALNUM, 3, 8) };
+                let low = m.to_ascii_lowercase();
+                if !members.iter().any(|x| x.to_ascii_lowercase() == low) && !(kind == 1 && low.len() == 2) { members.push(m); }
+            }
+            if kind == 1 { head.push(b"u".to_vec()); }
+            let mut a_t = head.clone();
+            a_t.extend(members.iter().cloned());
+            let mut second = members.clone();
+            let tr = match r.below(3) {
+                0 => { for _ in 0..(1 + r.below(3)) { let i = r.below(second.len()); let j = i + 1 + r.below(second.len() - i); let m = second[i].clone(); second.insert(j, m); } "repeat-anywhere" }
+                1 => { for i in (1..second.len()).rev() { let j = r.below(i + 1); second.swap(i, j); } "permute" }
+                _ => { for i in (1..second.len()).rev() { let j = r.below(i + 1); second.swap(i, j); }
+                       let i = r.below(second.len()); let m = second[i].clone(); second.push(m); "permute+repeat" }
+            };
+            let mut b_t = head.clone();
+            b_t.extend(second);
+            let (a, bb) = (noisy_join(r, &a_t), noisy_join(r, &b_t));
+            log.about_to("Locale::from_bytes (pair)", &[a.clone(), b"  |  ".to_vec(), bb.clone()].concat());
+            let got = guard(|| (Locale::from_bytes(&a), Locale::from_bytes(&bb)));
+            let same = match &got { Ok((Ok(x), Ok(y))) => x == y && x.to_string() == y.to_string(), Ok((Err(_), Err(_))) => true, _ => false };
+            log.ev(json!({"op":"meta","a": bytes(&a),"b": bytes(&bb),"tr": tr,"same": same}));
+            continue;
         }
         let a = noisy_join(r, &a_toks);
         let mut b_toks = a_toks.clone();
